@@ -20,9 +20,9 @@ ASSUMPTIONS = ['vf/model/play.py states Law 44 (trick winner) and Law 41 (openin
 
 
 def plan(tier):
-    nb, per = (12, 250) if tier == 'quick' else (16, 9500)
+    nb, per = (12, 900) if tier == 'quick' else (16, 9500)
     sh = [{'kind': 'boards', 'n': per, 'offset': i * 12} for i in range(nb)]
-    nt, pert = (4, 3000) if tier == 'quick' else (8, 60000)
+    nt, pert = (4, 12000) if tier == 'quick' else (8, 60000)
     sh += [{'kind': 'tricks', 'n': pert} for _ in range(nt)]
     return sh
 
